@@ -32,7 +32,8 @@ CONSTANTS
   LimitPrio,   \* limit_callbacks_after_prio
   ScriptOps,   \* set of names of ops usable as callback scripts
   PreAlloc,    \* TRUE: the pool events exist (event_new) in the initial state
-  NX           \* number of extra plain one-shot timer events (ids 11..10+NX), for heap-shape coverage
+  NX,          \* number of extra plain one-shot timer events (ids 11..10+NX), for heap-shape coverage
+  ND           \* number of deferred callbacks (struct event_callback, ids 21..20+ND)
 
 VARIABLES st, hist
 
@@ -45,7 +46,9 @@ SIGINT == 6
 CT(q) == 6 + q            \* q in 1..2  -> 7, 8
 ONCE(k) == 8 + k          \* k in 1..2  -> 9, 10
 NW == 3                   \* watcher slots 1..NW
-Ent == 1..(10 + NX)
+Ent == (1..(10 + NX)) \cup (21..(20 + ND))
+DefIds == 21..(20 + ND)
+DQ == 32                  \* MAX_DEFERREDS_QUEUED
 Internal == {6, 7, 8}
 Onces == {9, 10}
 CQ == 1..2
@@ -55,6 +58,7 @@ Kind(x) == CASE x \in {1, 2} -> "io"
              [] x = 5 -> "sig"
              [] x = SIGINT -> "io"
              [] x \in {7, 8} -> "timer"
+             [] x > 20 -> "defer"
              [] x > 10 -> "timer"
              [] OTHER -> "once"
 Persist(x) == x \in {1, 4, 5, 6}
@@ -75,7 +79,7 @@ MaskRes(m) == (IF (m % 2) = 1 THEN {"T"} ELSE {}) \cup (IF ((m \div 2) % 2) = 1 
 INF == -1        \* infinite timeout
 NoOp == [a |-> "none"]
 
-InitEv(x) == [alloc |-> x \in Internal, fl |-> {}, res |-> {}, pri |-> (IF x \in Internal THEN 0 ELSE NPrio \div 2),
+InitEv(x) == [alloc |-> x \in Internal \/ x > 20, fl |-> {}, res |-> {}, pri |-> (IF x \in Internal THEN 0 ELSE NPrio \div 2),
               dl |-> 0, cq |-> 0, iv |-> 0, ivq |-> 0, nc |-> 0, g |-> <<>>, clo |-> "std", user |-> FALSE]
 
 InitSt ==
@@ -91,6 +95,7 @@ InitSt ==
     pc |-> "idle", lflags |-> 0, pol |-> "exact", iters |-> 0, tmo |-> 0, n |-> 0, cnt1 |-> 0,
     qi |-> 0, blocked |-> FALSE, forced |-> FALSE, cblog |-> <<>>, ret |-> 0, gctr |-> 0,
     sigleft |-> 0, cur |-> 0, done |-> FALSE, wi |-> 0, wq |-> <<>>,
+    ndef |-> 0,        \* n_deferreds_queued
     fuzz |-> FALSE,
     amb |-> FALSE ]    \* a harness-forced break cut a tie group: what ran depends on the unspecified tie order   \* the maxima depend on the (unspecified) order of a tie that occurred
 
@@ -210,6 +215,17 @@ FinalizeOp(S, x, free) ==
       S3 == ActiveCore(S2, x, {"F"}, 1, <<>>)
   IN [S3 EXCEPT !.ev[x].fl = @ \cup {"FIN"}]
 
+(* event_deferred_cb_schedule_: beyond the quota of the current iteration the callback is
+   queued for the next iteration instead *)
+DeferOne(S, x) ==
+  IF S.ndef > DQ
+  THEN (IF S.ev[x].fl \cap {"ACT", "LATER"} = {} THEN InsLater(S, x) ELSE S)
+  ELSE IF "ACT" \in S.ev[x].fl THEN S
+  ELSE IF "LATER" \in S.ev[x].fl THEN InsActive(RemLater(S, x), x)
+  ELSE [InsActive(S, x) EXCEPT !.ndef = @ + 1]
+RECURSIVE DeferMany(_, _, _)
+DeferMany(S, k, n) == IF k > n THEN S ELSE DeferMany(DeferOne(S, 20 + k), k + 1, n)
+
 OnceSlot(S) == IF ~S.ev[ONCE(1)].alloc THEN ONCE(1) ELSE IF ~S.ev[ONCE(2)].alloc THEN ONCE(2) ELSE 0
 (* event_base_once(base, -1, EV_TIMEOUT, cb, tv): user = TRUE for a user callback, FALSE for loopexit *)
 OnceOp(S, t, user) ==
@@ -239,6 +255,7 @@ ApplyOp(S, op) ==
     [] op.a = "fin" -> [s |-> FinalizeOp(S, op.e, op.n = 1), r |-> 0]
     [] op.a = "exit" -> [s |-> OnceOp(S, op.t, FALSE), r |-> 0]
     [] op.a = "once" -> [s |-> OnceOp(S, op.t, TRUE), r |-> 0]
+    [] op.a = "defer" -> [s |-> DeferMany(S, 1, op.n), r |-> 0]
     [] op.a = "break" -> [s |-> [S EXCEPT !.brk = TRUE], r |-> 0]
     [] op.a = "cont" -> [s |-> [S EXCEPT !.cont = TRUE], r |-> 0]
     [] op.a = "maxclr" -> [s |-> [S EXCEPT !.actmax = IF op.n % 2 = 1 THEN 0 ELSE @,
@@ -306,6 +323,7 @@ OuterOps(S) ==
   \cup (IF "once" \in Acts THEN {[a |-> "once", t |-> t] : t \in DurSet} ELSE {})
   \cup (IF "break" \in Acts THEN {[a |-> "break"]} ELSE {})
   \cup (IF "cont" \in Acts THEN {[a |-> "cont"]} ELSE {})
+  \cup (IF "defer" \in Acts /\ ND > 0 THEN {[a |-> "defer", n |-> n] : n \in {1, 2, ND - 3, ND}} ELSE {})
   \cup (IF "maxclr" \in Acts THEN {[a |-> "maxclr", n |-> n] : n \in {1, 4, 5}} ELSE {})
   \cup (IF "wnew" \in Acts THEN {[a |-> "wnew", e |-> w, k |-> k, s |-> s, x |-> x] :
                                    w \in 1..NW, k \in {"prep", "check"}, s \in {"none", "self", "next", "prev", "new"}, x \in {0}} ELSE {})
@@ -352,6 +370,7 @@ ScriptSet ==
   \cup (IF "add" \in ScriptOps THEN {[a |-> "add", e |-> e, t |-> t] : e \in UserEv, t \in {-1, 1}} ELSE {})
   \cup (IF "free" \in ScriptOps THEN {[a |-> "free", e |-> e] : e \in UserEv} ELSE {})
   \cup (IF "fin" \in ScriptOps THEN {[a |-> "fin", e |-> e, n |-> 1] : e \in UserEv} ELSE {})
+  \cup (IF "defer" \in ScriptOps /\ ND > 0 THEN {[a |-> "defer", n |-> n] : n \in {2, ND}} ELSE {})
 SetScript ==
   /\ st.pc = "idle" /\ "script" \in Acts
   /\ \E e \in UserEv, sc \in ScriptSet :
@@ -379,11 +398,12 @@ MakeLaterActive(S) ==
   IF S.lq = <<>> THEN S
   ELSE LET x == Head(S.lq) IN
        MakeLaterActive([S EXCEPT !.lq = Tail(@), !.ev[x].fl = (@ \ {"LATER"}) \cup {"ACT"},
-                                 !.aq[S.ev[x].pri] = Append(@, x)])
+                                 !.aq[S.ev[x].pri] = Append(@, x),
+                                 !.ndef = IF x > 20 THEN @ + 1 ELSE @])
 
 IterTop ==
   /\ st.pc = "top"
-  /\ LET S0 == [st EXCEPT !.cont = FALSE] IN
+  /\ LET S0 == [st EXCEPT !.cont = FALSE, !.ndef = 0] IN
      IF S0.term \/ S0.brk \/ S0.done THEN st' = [S0 EXCEPT !.pc = "ret"]
      ELSE LET tmo == IF NAct(S0) = 0 /\ ~FlagNonblock(S0)
                      THEN (IF Heap(S0) = {} THEN INF
@@ -522,7 +542,11 @@ RunCallback ==
   /\ LET x == Head(st.aq[st.runprio])
          S0 == IF Persist(x) \/ "FIN" \in st.ev[x].fl THEN RemActive(st, x) ELSE DelCore(st, x)
          S1 == [S0 EXCEPT !.cnt1 = IF x \in Internal THEN @ ELSE @ + 1, !.cur = x]
-     IN IF "FIN" \in st.ev[x].fl
+     IN IF x > 20
+        THEN \* a deferred callback (EV_CLOSURE_CB_SELF): taken off the queue and run
+             st' = AfterCb([RemActive([st EXCEPT !.cnt1 = @ + 1, !.cur = x], x) EXCEPT
+                              !.cblog = Append(@, [e |-> x, r |-> 0, k |-> "def", g |-> <<>>])])
+        ELSE IF "FIN" \in st.ev[x].fl
         THEN \* finalizer runs; free_finalize releases the event
              LET S2 == LogCb(S1, x, "fin")
                  S3 == IF S2.ev[x].clo = "finfree" THEN [S2 EXCEPT !.ev[x].alloc = FALSE, !.script[x] = NoOp] ELSE S2
